@@ -80,7 +80,7 @@ func VerifC12Presentation() {
 	}
 	var second gRun
 	if sameAuthorizer {
-		a, err := NewVerifier(g.tok)
+		a, err := NewVerifier(g.tok, gPatient)
 		if err != nil {
 			return
 		}
@@ -124,7 +124,7 @@ func VerifC18Snapshot() {
 		other := gGenBlock("auth2", 1, 0, 0)
 		target = gBuildToken(other, nil).tok
 	}
-	src, err := NewVerifier(g.tok)
+	src, err := NewVerifier(g.tok, gPatient)
 	if err != nil {
 		return
 	}
@@ -134,7 +134,7 @@ func VerifC18Snapshot() {
 	if err != nil {
 		return
 	}
-	dst, err := NewVerifier(target)
+	dst, err := NewVerifier(target, gPatient)
 	if err != nil {
 		return
 	}
@@ -159,7 +159,7 @@ func VerifC18Snapshot() {
 	src.Authorize()
 	_, err = src.SerializePolicies()
 	vAssert(err != nil, "C18.refused-after-authorize")
-	q, err := NewVerifier(g.tok)
+	q, err := NewVerifier(g.tok, gPatient)
 	if err == nil {
 		gLoad(q, z)
 		q.Query(probe)
